@@ -1,8 +1,167 @@
 package server
 
-import "testing"
+// Replay-file minimisation: shrink programs and the choice vector while the
+// same violation class persists.
 
-// minimise shrinks a failing replay file while the same violation class persists.
-func minimise(t *testing.T, rec *ReplayFile, class string) *ReplayFile {
+import (
+	"sort"
+	"testing"
+	"time"
+)
+
+func cloneReplay(r *ReplayFile) *ReplayFile {
+	c := *r
+	c.Knobs = map[string]int{}
+	for k, v := range r.Knobs {
+		c.Knobs[k] = v
+	}
+	c.Programs = map[string][]Cmd{}
+	for k, p := range r.Programs {
+		c.Programs[k] = append([]Cmd(nil), p...)
+	}
+	c.Choices = append([]uint32(nil), r.Choices...)
+	c.Trace = nil
+	return &c
+}
+
+type minimiser struct {
+	t      *testing.T
+	class  string
+	execs  int
+	budget int
+	until  time.Time
+	best   *ReplayFile
+	bestR  *RunResult
+}
+
+// try executes cand (first with its recorded choices, then with a few fresh
+// schedule seeds) and returns the failing replay (with the executed choice
+// vector) or nil.
+func (m *minimiser) try(cand *ReplayFile, fresh int) *ReplayFile {
+	if m.execs >= m.budget || time.Now().After(m.until) {
+		return nil
+	}
+	run := func(c *ReplayFile) *ReplayFile {
+		m.execs++
+		res := runOnce(m.t, c.Property, c.Tier, c.Seed, c)
+		if res.HarnessErr != "" || res.Class != m.class {
+			return nil
+		}
+		out := cloneReplay(c)
+		out.Choices = res.rec.Choices
+		out.ChoiceSeed = 0
+		out.Class, out.Violation = res.Class, res.Msg
+		out.Trace = tailLog(res.log, 120)
+		m.bestR = res
+		return out
+	}
+	if r := run(cand); r != nil {
+		return r
+	}
+	for i := 1; i <= fresh && m.execs < m.budget; i++ {
+		c := cloneReplay(cand)
+		c.Choices = nil
+		c.ChoiceSeed = int64(i)*7919 + cand.Seed
+		if r := run(c); r != nil {
+			return r
+		}
+	}
 	return nil
+}
+
+func progSize(r *ReplayFile) int {
+	n := 0
+	for _, p := range r.Programs {
+		n += len(p)
+	}
+	return n
+}
+
+func minimise(t *testing.T, rec *ReplayFile, class string) *ReplayFile {
+	m := &minimiser{t: t, class: class, budget: 400, until: time.Now().Add(90 * time.Second)}
+	cur := m.try(cloneReplay(rec), 0)
+	if cur == nil {
+		return nil // does not reproduce from its own replay file: leave the raw file
+	}
+	names := make([]string, 0, len(cur.Programs))
+	for n := range cur.Programs {
+		names = append(names, n)
+	}
+	sort.Strings(names)
+	// 1. drop whole programs, then chunks of commands (delta debugging)
+	for _, n := range names {
+		if len(cur.Programs[n]) == 0 {
+			continue
+		}
+		c := cloneReplay(cur)
+		c.Programs[n] = []Cmd{}
+		if r := m.try(c, 3); r != nil {
+			cur = r
+		}
+	}
+	for _, n := range names {
+		chunk := (len(cur.Programs[n]) + 1) / 2
+		for chunk >= 1 {
+			changed := false
+			for i := len(cur.Programs[n]) - chunk; i >= 0; i -= chunk {
+				p := cur.Programs[n]
+				if i+chunk > len(p) {
+					continue
+				}
+				c := cloneReplay(cur)
+				c.Programs[n] = append(append([]Cmd(nil), p[:i]...), p[i+chunk:]...)
+				if r := m.try(c, 2); r != nil {
+					cur = r
+					changed = true
+				}
+				if m.execs >= m.budget || time.Now().After(m.until) {
+					break
+				}
+			}
+			if !changed || chunk == 1 {
+				if chunk == 1 {
+					break
+				}
+				chunk /= 2
+			}
+			if m.execs >= m.budget || time.Now().After(m.until) {
+				break
+			}
+		}
+	}
+	// 2. simplify the schedule: truncate, then zero blocks of the choice vector
+	for cut := len(cur.Choices) / 2; cut >= 8; cut /= 2 {
+		if len(cur.Choices) <= cut {
+			continue
+		}
+		c := cloneReplay(cur)
+		c.Choices = c.Choices[:len(c.Choices)-cut]
+		if r := m.try(c, 0); r != nil {
+			cur = r
+		}
+	}
+	for blk := len(cur.Choices) / 4; blk >= 4; blk /= 2 {
+		for i := 0; i+blk <= len(cur.Choices); i += blk {
+			c := cloneReplay(cur)
+			z := true
+			for j := i; j < i+blk; j++ {
+				if c.Choices[j] != 0 {
+					z = false
+				}
+				c.Choices[j] = 0
+			}
+			if z {
+				continue
+			}
+			if r := m.try(c, 0); r != nil {
+				cur = r
+			}
+			if m.execs >= m.budget || time.Now().After(m.until) {
+				break
+			}
+		}
+	}
+	cur.MinimisedFrom = progSize(rec)
+	cur.Executions = m.execs
+	return cur
 }
